@@ -238,6 +238,7 @@ type clientEngine struct {
 	clockProgress   int
 	clockIdle       int
 	marathon        bool
+	burst           bool
 	reentPct        int
 	reentered       int
 	nestedDo        int
@@ -690,6 +691,9 @@ func (e *clientEngine) serve(req []byte) {
 	}
 	if e.marathon {
 		n = 1 + r.Pick([]int{20, 1}, "server-responses-m")
+	}
+	if e.burst && !(ptx != nil && ptx.protected) {
+		n = 0
 	}
 	for i := 0; i < n; i++ {
 		pad := 0
@@ -1585,6 +1589,9 @@ func (e *clientEngine) callerScript(i int) func() {
 				return
 			}
 			w := []int{6, 5, 2, 2, 0, 0} // id reuse (case 5) is not generated: see DESIGN.md 11
+			if e.burst {
+				w = []int{1, 0, 0, 0, 0, 0}
+			}
 			w[4] = e.closePct
 			switch r.Pick(w, "caller-op") {
 			case 0:
@@ -1671,6 +1678,15 @@ func (e *clientEngine) Setup(r *Run) {
 	switch prof {
 	case "C11":
 		e.bigPct = []int{10, 30, 60}[r.Choose(3, "bigpct11")]
+	case "C10":
+		if r.Pct(6, "burst") {
+			// a burst of unanswered requests that all expire before one collection
+			e.burst = true
+			e.nCallers = 2 + r.Choose(3, "ncallers-b")
+			e.opsPer = 40 + r.Choose(30, "opsper-b")
+			e.lossPct, e.writeFailPct, e.readFailPct, e.closePct, e.bigPct = 0, 0, 0, 0, 0
+			e.chaosCap = 60000
+		}
 	case "C15":
 		e.closePct = 1 + r.Choose(4, "closepct15")
 	case "C12":
@@ -1708,7 +1724,7 @@ func (e *clientEngine) Setup(r *Run) {
 	}
 	// per-run subset of honoured yield sites
 	dens := []int{100, 100, 50, 20}[r.Choose(4, "yield-density")]
-	if e.marathon {
+	if e.marathon || e.burst {
 		dens = []int{10, 4}[r.Choose(2, "yield-density-m")]
 	}
 	if dens < 100 {
@@ -1724,7 +1740,7 @@ func (e *clientEngine) Setup(r *Run) {
 	}
 	e.cfgDesc = map[string]any{"manual_clock": e.manual, "clock_skew": e.skew.String(), "no_conn_close": e.noConnClose, "no_retransmit": e.noRetransmit, "fallback": e.hasFallback,
 		"rto": e.rto0.String(), "rate": e.rate.String(), "callers": e.nCallers, "ops_per_caller": e.opsPer, "loss": e.lossPct, "dup": e.dupPct, "corrupt": e.corruptPct,
-		"write_fail": e.writeFailPct, "yield_density": dens, "in_lock_yields": r.Sim.YieldInLock, "pool_mode": r.Sim.PoolMode, "marathon": e.marathon, "collector_close_waits": !e.collNoWait, "sched_policy": r.Policy, "handler_reenters_pct": e.reentPct}
+		"write_fail": e.writeFailPct, "yield_density": dens, "in_lock_yields": r.Sim.YieldInLock, "pool_mode": r.Sim.PoolMode, "marathon": e.marathon, "burst": e.burst, "collector_close_waits": !e.collNoWait, "sched_policy": r.Policy, "handler_reenters_pct": e.reentPct}
 
 	e.conn = &simConn{e: e}
 	r.Sim.Spawn("setup", func() {
@@ -1777,6 +1793,17 @@ func (e *clientEngine) effRate() time.Duration {
 // returned nor completed its first write successfully.
 func (e *clientEngine) inStartWindow(tx *cTx) bool {
 	return tx.kind != txIndicate && !tx.returned && !tx.firstWriteOK
+}
+
+// callersBusy: some caller task has not finished its script (burst profile:
+// the clock stands still until every request of the burst is out).
+func (e *clientEngine) callersBusy() bool {
+	for _, tk := range e.callers {
+		if tk.State != verifrt.Done {
+			return true
+		}
+	}
+	return false
 }
 
 func (e *clientEngine) progress() int {
@@ -1889,7 +1916,7 @@ func (e *clientEngine) Env() []EnvEvent {
 		}
 	}
 	// clock
-	if (chaos || (e.phase == phHeal && e.healClock < 300)) && len(e.incomplete()) > 0 && !(e.closeOK != nil && e.closeOK.done) {
+	if (chaos || (e.phase == phHeal && e.healClock < 300)) && len(e.incomplete()) > 0 && !(e.closeOK != nil && e.closeOK.done) && !(e.burst && e.callersBusy()) {
 		ev = append(ev, EnvEvent{Name: "clock", Weight: 3, Do: func() {
 			var d time.Duration
 			if e.phase == phHeal {
